@@ -1,6 +1,7 @@
 """C10 — deny and allow lists behave as one consistent register"""
 from tiecommon import TIE_LOCKS, TIE_DENY, TIE_ACCESS
 import vlib
+from relaycommon import RelayMode
 from vlib import hx
 
 RULE = ("TRANSLATOR TIE: internal/deny/deny.go is translated to Lean on every run (Relay/Extracted/GenDeny.lean) and proved equal to the "
@@ -102,4 +103,4 @@ class GenDenyMode(DenyMode):
 
 
 def modes(tier):
-    return [DenyMode(), GenDenyMode()]
+    return [DenyMode(), GenDenyMode(), RelayMode("C10")]   # relay: the register as the handlers use it (clock exactly on expiry instants)
